@@ -73,15 +73,53 @@ fn adv_history() -> impl Strategy<Value = AdvHistory> {
     (
         any::<bool>(),
         prop_oneof![
-            12 => prop::collection::vec(adv_req(), 0..40).boxed(),
-            2 => prop::collection::vec(adv_req(), 40..160).boxed(),
+            3600 => prop::collection::vec(adv_req(), 0..40).boxed(),
+            600 => prop::collection::vec(adv_req(), 40..160).boxed(),
             // a first variant with more than 64 data, then the usual requests
-            1 => (66usize..90, strat_strategy(), prop::collection::vec(adv_req(), 0..40))
+            300 => (66usize..90, strat_strategy(), prop::collection::vec(adv_req(), 0..40))
                 .prop_map(|(n, strat, rest)| {
                     let mut reqs: Vec<AdvReq> = (0..n)
                         .map(|i| AdvReq::Add { name: None, size: 1 << (i % 4), align: 1 << (i % 4), uninit: i % 2 == 0, via: (i % 6) as u8 })
                         .collect();
                     reqs.push(AdvReq::Close { strat });
+                    reqs.extend(rest);
+                    reqs
+                })
+                .boxed(),
+            // counters that wrap: a named datum, then a run of 253..258 or 509..514 accepted removals and closes
+            // (around 2^8 and 2^9 changes), then the same name again (a duplicate) and the usual requests
+            1 => (
+                0u8..8,
+                prop_oneof![253usize..259, 509usize..515],
+                prop::collection::vec(prop_oneof![9 => (0u16..0x7000).prop_map(|sel| AdvReq::RemoveCurrent { sel }), 1 => strat_strategy().prop_map(|strat| AdvReq::Close { strat })], 515),
+                strat_strategy(),
+                prop::collection::vec(adv_req(), 0..10),
+            )
+                .prop_map(|(name, run, changes, strat, rest)| {
+                    let mut reqs: Vec<AdvReq> = (0..run + 40)
+                        .map(|i| AdvReq::Add { name: None, size: 1 << (i % 3), align: 1 << (i % 3), uninit: i % 2 == 0, via: 0 })
+                        .collect();
+                    reqs.push(AdvReq::Close { strat });
+                    reqs.push(AdvReq::Add { name: Some(name), size: 4, align: 4, uninit: false, via: 0 });
+                    // every request of the run is accepted: a close right after a close would be a no-op
+                    let mut last_was_close = false;
+                    let mut accepted = 0;
+                    for c in changes {
+                        if accepted == run {
+                            break;
+                        }
+                        if matches!(c, AdvReq::Close { .. }) {
+                            if last_was_close {
+                                continue;
+                            }
+                            last_was_close = true;
+                        } else {
+                            last_was_close = false;
+                        }
+                        reqs.push(c);
+                        accepted += 1;
+                    }
+                    reqs.push(AdvReq::Add { name: Some(name), size: 4, align: 4, uninit: false, via: 0 });
                     reqs.extend(rest);
                     reqs
                 })
